@@ -391,6 +391,12 @@ func mergeStats(t, s *Stats) {
 		t.OpCount[k] += v
 	}
 	for k, v := range s.Extra {
+		if strings.Contains(k, "worst") { // maxima, not sums
+			if v > t.Extra[k] {
+				t.Extra[k] = v
+			}
+			continue
+		}
 		t.Extra[k] += v
 	}
 	if len(t.Samples) < 4 {
